@@ -169,7 +169,7 @@ def arm_random_faults(case, procs, fr, has_atc, p_none=0.35):
                         sites.append((item['id'], 'post_setup', 'post_setup'))
                     sites.append((item['id'], 'main', 'main_as' if ph == 'assert' else 'main_sh'))
                     sites.append((item['id'], 'main', 'main_as' if ph == 'assert' else 'main_sh'))
-            elif item['k'] == 'probe':
+            elif item['k'] == 'probe' and not item.get('noarm'):
                 sites.append((item['id'], 'main', 'probe'))
                 sites.append((item['id'], 'main', 'probe'))
     for step in ('parse', 'symbols', 'pre_sds', 'post_setup', 'prepare', 'execute', 'execute'):
